@@ -25,7 +25,15 @@ SPECS_2D = [
     {"nx": [2, 2], "fracs": [H, V], "refine": True},
     {"nx": [2, 2], "fracs": [H], "refine_mortar": True},
     {"nx": [2, 2], "fracs": [H, V], "refine": True, "refine_mortar": True},
+    {"nx": [2, 2], "fracs": [H, V], "refine_mortar": True},
+    {"nx": [4, 2], "fracs": [[[0, 4], [1, 1]]], "coarse_mortar": True},
+    {"simplex": 0.5},   # gmsh triangles, two crossing fractures (another face numbering)
 ]
+# md-grids whose 1-d mortar grids do not match their neighbours (finer than both: the
+# integrating mortar->subdomain weights are 1 and the averaging ones 1/2; coarser than both:
+# the other way round; refined fracture: only the secondary side is non-matching)
+SPECS_NONMATCHING = [s for s in SPECS_2D
+                     if s.get("refine") or s.get("refine_mortar") or s.get("coarse_mortar")]
 P1 = [[0, 2, 2, 0], [0, 0, 2, 2], [1, 1, 1, 1]]
 P2 = [[1, 1, 1, 1], [0, 2, 2, 0], [0, 0, 2, 2]]
 P3 = [[0, 2, 2, 0], [1, 1, 1, 1], [0, 0, 2, 2]]
@@ -83,6 +91,9 @@ def _build(spec):
         mdg.add_subdomains([ga, gb])
         _add_well(mdg, ga, 1)
         _add_well(mdg, gb, 2)
+    elif spec.get("simplex"):
+        mdg, _ = pp.mdg_library.square_with_orthogonal_fractures(
+            "simplex", {"cell_size": spec["simplex"]}, fracture_indices=[0, 1])
     else:
         fr = [np.array(f, dtype=float) for f in spec["fracs"]]
         mdg = pp.meshing.cart_grid(fr, np.array(spec["nx"]))
@@ -96,12 +107,18 @@ def _build(spec):
         for intf in mdg.interfaces(dim=1):
             new = {s: pp.refinement.refine_grid_1d(g, ratio=2) for s, g in intf.side_grids.items()}
             intf.update_mortar(new, 1e-4)
+    if spec.get("coarse_mortar"):
+        for intf in mdg.interfaces(dim=1):
+            new = {s: pp.refinement.remesh_1d(g, g.num_cells // 2 + 1)
+                   for s, g in intf.side_grids.items()}
+            intf.update_mortar(new, 1e-4)
     mdg.compute_geometry()
     mdg.set_boundary_grid_projections()
     foreign = pp.CartGrid(np.array([2, 1]))
     foreign.compute_geometry()
     rec = {"mdg": mdg, "sds": mdg.subdomains(), "ifs": mdg.interfaces(), "foreign": foreign}
     rec["sd_index"] = {g: i for i, g in enumerate(rec["sds"])}
+    rec["eqs"] = pp.ad.EquationSystem(mdg)
     _POOL[key] = rec
     return rec
 
@@ -125,6 +142,16 @@ def _dense(o):
     for i, j, n, d in o["ents"]:
         a[i, j] += n / d
     return a
+
+
+def _value(op, rec, via):
+    """The sparse matrix of an AD operator: op.parse(mdg), EquationSystem.evaluate(op) or
+    op.value(equation_system)."""
+    if via == "evaluate":
+        return rec["eqs"].evaluate(op)
+    if via == "value":
+        return op.value(rec["eqs"])
+    return op.parse(rec["mdg"])
 
 
 def _grid_rec(g):
@@ -155,57 +182,75 @@ class C27(Prop):
     id = "C27"
     props_file = "Props/C27.v"
     preamble = ("From Coq Require Import List ZArith QArith.\nImport ListNotations.\n"
-                "From PP Require Import Model.C27.\nLocal Open Scope Z_scope.\n")
-    n_cases = (160, 2400)
+                "From PP Require Import Model.C27 Model.C27_ext.\nLocal Open Scope Z_scope.\n")
+    n_cases = (180, 3000)
     design_ref = "DESIGN.md §5 C27"
     level_text = (
-        "Coq theorems (18, closed under the global context) over an executable transcription of "
+        "Coq theorems (28, closed under the global context) over an executable transcription of "
         "_cell_projections/_face_projections (offset bookkeeping incl. expand_indices_nd and the "
         "dim>0 face-offset rule), SubdomainProjections, MortarProjections "
         "(_construct_projection as repaired, the eight cached accessors with their shared / "
-        "separate cache attributes, sign_of_mortar_sides) and BoundaryProjection (incl. "
-        "BoundaryGrid.projection): for every constructor list of distinct grids (0-d grids "
-        "without faces included), every vector dimension >= 1 and every requested list in any "
-        "order, restriction = selection of the grids' global index blocks (offsets follow the "
-        "constructor list, rows the request), prolongation = its transpose; for requests "
-        "without repetition restriction o prolongation = identity and prolongation o "
-        "restriction = indicator of the listed blocks; for a reordering of the full list the "
+        "separate cache attributes, sign_of_mortar_sides), BoundaryProjection (incl. "
+        "BoundaryGrid.projection), Trace and Divergence: for every constructor list of distinct "
+        "grids (0-d grids without faces included), every vector dimension >= 1 and every "
+        "requested list in any order, restriction = selection of the grids' global index blocks "
+        "(offsets follow the constructor list, rows the request), prolongation = its transpose; "
+        "for requests without repetition restriction o prolongation = identity and prolongation "
+        "o restriction = indicator of the listed blocks; for a reordering of the full list the "
         "stacked prolongations hit every global index exactly once; mortar projections of any "
         "interface list of one codimension (1 or 2) are the per-interface matrices shifted to "
         "(mortar offset, subdomain offset) of their block, zero blocks for unlisted subdomains; "
-        "boundary projections compose to the identity / the boundary-face indicator; error "
-        "branches (repeated grid, unknown grid, mixed codimension, missing boundary grid) "
-        "covered.  The model is tied to the code on every run: the real operators (parsed "
-        "through the AD SparseArray objects) on small md-grids for random sub-lists and orders, "
-        "dim 1-3, are compared entry by entry with the model inside Coq.")
+        "for EVERY call history over the eight cached accessors each call returns its own "
+        "construction or, only on a side whose flag says conforming, the twin flavour's (flags "
+        "proved equivalent to 'all int and avg weights within 1e-10+1e-5 of 1'); boundary "
+        "projections compose to the identity / the boundary-face indicator, and for arbitrary "
+        "lists (grids without boundary grid) the result is characterised incl. the stale block; "
+        "Trace / Divergence place the per-grid operators at the projections' offsets; error "
+        "branches (repeated grid, unknown grid, non-list argument, mixed codimension, missing "
+        "boundary grid, vector Trace, empty Divergence) covered.  The model is tied to the code "
+        "on every run: the real operators (through SparseArray.parse, EquationSystem.evaluate "
+        "or Operator.value) on small md-grids for random sub-lists and orders, dim 1-4, are "
+        "compared entry by entry with the model inside Coq.")
     level_note = (
         "Trusted: Coq kernel + vm_compute; harness (generator, literal emission); sparse "
         "matrices are modelled as shape + coordinate list (storage format not modelled); "
-        "per-interface MortarGrid projections are inputs (C26 covers them); floating point "
-        "enters only as multiplication of weights by 1.0.  C27_mortar_cached_calls is PARTIAL: "
-        "the int/avg accessors of a side classified conforming (np.allclose(data, 1): "
+        "per-interface MortarGrid projections and per-grid Grid.trace/Grid.divergence are inputs "
+        "(C26 covers the former); floating point enters only as multiplication of weights by "
+        "1.0.  The int/avg accessors of a side classified conforming (np.allclose(data, 1): "
         "tolerance 1e-5) share one cache attribute, so the second flavour called returns the "
-        "first one's matrix; the theorem assumes the two per-interface matrices are then equal "
-        "(true of MortarGrid's normalised weights up to rounding), the unguarded statement is "
-        "refuted on the model (C27_mortar_cached_calls_refuted).  Not proved: Trace / "
-        "Divergence (not projections), non-list arguments, a stale block for a later listed "
-        "grid that is not in the md-grid (tie only).  The theorems are about the model; the "
-        "code is covered on the generated md-grids only.  Defect found and repaired "
-        "(/repo cf2359aed): zero blocks of codimension-2 interfaces were sized by faces.")
+        "first one's matrix: C27_mortar_cached_calls states exactly this without guard "
+        "(C27_mortar_cached_calls_partial is the older guarded form, _refuted its "
+        "counter-model); that the two flavours then agree to rounding is a property of "
+        "MortarGrid's normalised weights (C26), not proved here.  A listed grid that is not in "
+        "the md-grid makes BoundaryProjection repeat the previous block "
+        "(C27_boundary_general; C27_boundary_stale_refuted shows claim (4) fails there) - "
+        "outside the property (grids of the md-grid), so no finding.  Divergence([]) raises "
+        "ValueError (np.concatenate of nothing) while Trace([]) is 0x0: modelled, not part of "
+        "the property.  The theorems are about the model; the code is covered on the generated "
+        "md-grids only.  Defect found and repaired (/repo cf2359aed): zero blocks of "
+        "codimension-2 interfaces were sized by faces.")
     technique = ("Coq proof (list/offset lemmas over coordinate lists, lia) + vm_compute "
                  "execution correspondence on the real scipy matrices")
-    rule = ("Cartesian md-grids (2-D with 0-2 fractures incl. a crossing with a 0-d grid, "
-            "refined fracture and/or mortar grids for non-unit weights; 3-D with 1-3 fracture "
-            "planes in the thorough tier); random constructor lists, requested sub-lists and "
-            "orders of subdomains / interfaces, dim 1-3; empty and single-grid lists; "
-            "corner stream: grids missing from the constructor list (KeyError), repeated grids "
+    rule = ("md-grids: Cartesian 2-D with 0-2 fractures incl. a crossing with a 0-d grid, "
+            "refined fracture grids, mortar grids finer / coarser than both neighbours "
+            "(non-unit weights), a gmsh triangle grid with crossing fractures, hand-built "
+            "codimension-2 (well) md-grids, 3-D with 1-3 fracture planes in the thorough tier; "
+            "random constructor lists, requested sub-lists and orders of subdomains / "
+            "interfaces, dim 1-4 (python int or numpy integer), lists or tuples for the "
+            "constructors; empty and single-grid lists; operators evaluated through parse / "
+            "EquationSystem.evaluate / Operator.value; histories of accessor calls on one "
+            "SubdomainProjections object (incl. tuples instead of lists); a call-order stream "
+            "requesting both flavours of every mortar direction from one object in both orders on "
+            "non-matching md-grids; Trace, Divergence and BoundaryGrid.projection; corner "
+            "stream: grids missing from the constructor list (KeyError), repeated grids "
             "(ValueError / repeated rows), a subdomain without boundary grid (stale block / "
-            "UnboundLocalError); random call histories over the eight mortar accessors; "
-            "non-trivial = at least two listed grids or dim > 1; distinct by (case, output)")
+            "UnboundLocalError), mixed codimensions; non-trivial = at least two listed grids or "
+            "dim > 1; distinct by (case, output)")
     trusted = ["a scipy sparse matrix is represented by its shape and coordinate list "
                "(duplicates summed, explicit zeros irrelevant except for np.allclose on .data); "
                "exact dyadic weights (refinement ratio 2)",
-               "MortarGrid.<projection>(nd) matrices of the listed interfaces are inputs of the model"]
+               "MortarGrid.<projection>(nd), Grid.trace(nd) and Grid.divergence(nd) matrices of "
+               "the listed grids are inputs of the model"]
     assumptions = ["listed grids are distinct objects of one md-grid (the corner stream "
                    "exercises the other cases in the tie only)"]
 
@@ -229,6 +274,17 @@ class C27(Prop):
         return out
 
     def generate(self, rng, n, tier):
+        for case in self._generate(rng, n, tier):
+            # route through which the operator's matrix is obtained
+            case["via"] = rng.choice(["parse", "parse", "evaluate", "value"])
+            # the constructors take any Sequence and any integer type for dim
+            case["seq"] = rng.choice(["list", "list", "tuple"])
+            case["npdim"] = rng.random() < 0.25
+            if case["kind"] == "sub":
+                case["order"] = rng.sample([0, 1, 2, 3], 4)
+            yield case
+
+    def _generate(self, rng, n, tier):
         specs = self._specs(tier)
         for k in range(n):
             spec = rng.choice(specs)
@@ -236,8 +292,64 @@ class C27(Prop):
                 spec = rng.choice(SPECS_2D)   # keep most of the volume on the small grids
             rec = _build(spec)
             nsd, nif = len(rec["sds"]), len(rec["ifs"])
-            nd = rng.choice([1, 1, 2, 3])
+            nd = rng.choice([1, 1, 2, 3, 1, 1, 2, 3, 4])
             r = rng.random()
+            q = rng.random()
+            if q < 0.1:
+                # several accessor calls on ONE SubdomainProjections object (lazily built
+                # dictionaries are reused), incl. tuples instead of lists (ValueError)
+                all_ = list(range(nsd))
+                rng.shuffle(all_)
+                if rng.random() < 0.3:
+                    all_ = self._sublist(rng, range(nsd))
+                ops = []
+                for _ in range(rng.randint(2, 5)):
+                    req = self._sublist(rng, all_)
+                    if rng.random() < 0.08:
+                        req = req + [rng.choice([i for i in range(nsd) if i not in all_] + [FOREIGN])]
+                    ops.append([rng.choice(["cell_restriction", "cell_prolongation",
+                                            "face_restriction", "face_prolongation"]),
+                                rng.random() > 0.2, req])
+                yield {"kind": "hist", "mdg": spec, "all": all_, "nd": nd, "ops": ops}
+                continue
+            if 0.26 <= q < 0.3:
+                cand = [i for i, g in enumerate(rec["sds"]) if g.dim > 0]
+                yield {"kind": "bgproj", "mdg": spec, "sd": rng.choice(cand), "nd": nd}
+                continue
+            if q < 0.26:
+                sds = self._sublist(rng, range(nsd))
+                if rng.random() < 0.4:
+                    sds = list(range(nsd))
+                    rng.shuffle(sds)
+                if rng.random() < 0.05 and sds:
+                    sds = sds + [rng.choice(sds)]
+                if rng.random() < 0.5:
+                    yield {"kind": "trace", "mdg": spec, "sds": sds,
+                           "nd": 1 if rng.random() < 0.85 else nd}
+                else:
+                    yield {"kind": "div", "mdg": spec, "sds": sds, "nd": nd}
+                continue
+            if rng.random() < 0.1:
+                # call-order stream: non-matching mortar grids, all grids listed (random
+                # order), both flavours of every direction requested from ONE object, each
+                # pair in random order
+                spec = rng.choice(SPECS_NONMATCHING)
+                rec = _build(spec)
+                sds = list(range(len(rec["sds"])))
+                ifs = [i for i, m in enumerate(rec["ifs"]) if m.dim == 1]
+                rng.shuffle(sds)
+                rng.shuffle(ifs)
+                calls = []
+                dirs = ["mortar_to_primary", "primary_to_mortar", "mortar_to_secondary",
+                        "secondary_to_mortar"]
+                rng.shuffle(dirs)
+                for base in dirs[:rng.randint(1, 4)]:
+                    pair = [base + "_int", base + "_avg"]
+                    rng.shuffle(pair)
+                    calls += pair
+                yield {"kind": "mortar", "mdg": spec, "sds": sds, "ifs": ifs, "nd": nd,
+                       "calls": calls}
+                continue
             if r < 0.4:
                 all_ = self._sublist(rng, range(nsd), allow_empty=rng.random() < 0.3)
                 if rng.random() < 0.5:
@@ -295,26 +407,37 @@ class C27(Prop):
     def run_impl(self, case):
         rec = _build(case["mdg"])
         mdg = rec["mdg"]
-        nd = case["nd"]
+        nd = np.int64(case["nd"]) if case.get("npdim") else case["nd"]
         kind = case["kind"]
         out = {}
+        seq = tuple if case.get("seq") == "tuple" else list
+        if kind == "bgproj":
+            g = rec["sds"][case["sd"]]
+            bg = mdg.subdomain_to_boundary_grid(g)
+            out["grids"] = {str(case["sd"]): _grid_rec(g)}
+            out["bnd"] = [int(f) for f in np.where(g.tags["domain_boundary_faces"])[0]]
+            out["outs"] = [_mat(bg.projection(nd)), _mat(bg.projection())]
+            return out
         if kind == "sub":
             all_ = self._grids(rec, case["all"])
             req = self._grids(rec, case["req"])
             out["grids"] = {str(i): _grid_rec(g) for i, g in
                             zip(case["all"] + case["req"], all_ + req)}
             try:
-                sp = pp.ad.SubdomainProjections(all_, nd)
+                sp = pp.ad.SubdomainProjections(seq(all_), nd)
             except ValueError:
                 out["outs"] = [{"err": "ValueErr"}]
                 return out
-            outs = []
-            for name in ("cell_restriction", "cell_prolongation", "face_restriction",
-                         "face_prolongation"):
+            names = ("cell_restriction", "cell_prolongation", "face_restriction",
+                     "face_prolongation")
+            outs = [None] * 4
+            # the four accessors are called in the case's order (the dictionaries are built
+            # lazily by whichever comes first) and reported in the fixed order
+            for k in case.get("order", [0, 1, 2, 3]):
                 try:
-                    outs.append(_mat(getattr(sp, name)(list(req)).parse(mdg)))
+                    outs[k] = _mat(_value(getattr(sp, names[k])(list(req)), rec, case.get("via")))
                 except KeyError:
-                    outs.append({"err": "KeyErr"})
+                    outs[k] = {"err": "KeyErr"}
             out["outs"] = outs
             return out
         if kind in ("mortar", "sign"):
@@ -328,9 +451,9 @@ class C27(Prop):
                               int(intf.codim),
                               [int(g.num_cells) for g in intf.side_grids.values()]])
             out["ifs"] = irecs
-            mp = pp.ad.MortarProjections(mdg, sds, ifs, nd)
+            mp = pp.ad.MortarProjections(mdg, seq(sds), seq(ifs), nd)
             if kind == "sign":
-                out["outs"] = [_mat(mp.sign_of_mortar_sides().parse(mdg))]
+                out["outs"] = [_mat(_value(mp.sign_of_mortar_sides(), rec, case.get("via")))]
                 return out
             needed = sorted(set(case["calls"]) | set(FLAG_KINDS))
             out["locs"] = {k: [_mat(getattr(intf, k)(nd), keep_zeros=True) for intf in ifs]
@@ -338,7 +461,7 @@ class C27(Prop):
             outs = []
             for name in case["calls"]:
                 try:
-                    outs.append(_mat(getattr(mp, name)().parse(mdg)))
+                    outs.append(_mat(_value(getattr(mp, name)(), rec, case.get("via"))))
                 except ValueError:
                     outs.append({"err": "ValueErr"})
             out["outs"] = outs
@@ -352,12 +475,50 @@ class C27(Prop):
                 out["bnd"][str(i)] = (None if bg is None else
                                       [int(f) for f in np.where(g.tags["domain_boundary_faces"])[0]])
             try:
-                bp = pp.ad.BoundaryProjection(mdg, sds, nd)
+                bp = pp.ad.BoundaryProjection(mdg, seq(sds), nd)
             except UnboundLocalError:
                 out["outs"] = [{"err": "UnboundErr"}, {"err": "UnboundErr"}]
                 return out
-            out["outs"] = [_mat(bp.subdomain_to_boundary.parse(mdg)),
-                           _mat(bp.boundary_to_subdomain.parse(mdg))]
+            out["outs"] = [_mat(_value(bp.subdomain_to_boundary, rec, case.get("via"))),
+                           _mat(_value(bp.boundary_to_subdomain, rec, case.get("via")))]
+            return out
+        if kind == "hist":
+            all_ = self._grids(rec, case["all"])
+            idx = list(case["all"]) + [i for o in case["ops"] for i in o[2]]
+            out["grids"] = {str(i): _grid_rec(g) for i, g in zip(idx, self._grids(rec, idx))}
+            try:
+                sp = pp.ad.SubdomainProjections(seq(all_), nd)
+            except ValueError:
+                out["outs"] = [{"err": "ValueErr"}]
+                return out
+            outs = []
+            for name, is_list, req in case["ops"]:
+                arg = self._grids(rec, req)
+                if not is_list:
+                    arg = tuple(arg)
+                try:
+                    outs.append(_mat(_value(getattr(sp, name)(arg), rec, case.get("via"))))
+                except KeyError:
+                    outs.append({"err": "KeyErr"})
+                except ValueError:
+                    outs.append({"err": "ValueErr"})
+            out["outs"] = outs
+            return out
+        if kind in ("trace", "div"):
+            sds = self._grids(rec, case["sds"])
+            out["grids"] = {str(i): _grid_rec(g) for i, g in zip(case["sds"], sds)}
+            if kind == "trace":
+                out["locs"] = [_mat(g.trace(nd), keep_zeros=True) for g in sds] if nd == 1 else []
+                try:
+                    out["outs"] = [_mat(_value(pp.ad.Trace(sds, nd).trace, rec, case.get("via")))]
+                except NotImplementedError:
+                    out["outs"] = [{"err": "NotImpl"}]
+            else:
+                out["locs"] = [_mat(g.divergence(nd), keep_zeros=True) for g in sds]
+                try:
+                    out["outs"] = [_mat(_value(pp.ad.Divergence(sds, nd), rec, case.get("via")))]
+                except ValueError:
+                    out["outs"] = [{"err": "ValueErr"}]
             return out
         raise ValueError(kind)
 
@@ -370,6 +531,72 @@ class C27(Prop):
         kind = case["kind"]
         nd = case["nd"]
         outs = res["outs"]
+        if nd > 3:
+            return None   # the property speaks of dimensions 1-3 (the tie covers the rest)
+        if kind == "hist":
+            all_ = case["all"]
+            if not self._in_scope(all_):
+                return None
+            if outs == [{"err": "ValueErr"}] and len(case["ops"]) != 1:
+                return "constructor rejected a list of distinct subdomains"
+            for (name, is_list, req), o in zip(case["ops"], outs):
+                if not is_list or not self._in_scope(req) or any(i not in all_ for i in req):
+                    continue
+                if "err" in o:
+                    return f"{name} raised {o['err']} for a list of known, distinct subdomains"
+                which = 1 if name.startswith("cell") else 2
+                num = {i: res["grids"][str(i)][which] * nd for i in all_}
+                off, tot = {}, 0
+                for i in all_:
+                    off[i] = tot
+                    tot += num[i]
+                nloc = sum(num[i] for i in req)
+                exp = np.zeros((tot, nloc))
+                pos = 0
+                for i in req:
+                    exp[off[i]:off[i] + num[i], pos:pos + num[i]] = np.eye(num[i])
+                    pos += num[i]
+                if name.endswith("restriction"):
+                    exp = exp.T
+                got = _dense(o)
+                if got.shape != exp.shape or not np.array_equal(got, exp):
+                    return (f"{name} (call on a reused object): not the selection of the "
+                            "listed grids' blocks in list order")
+            return None
+        if kind == "bgproj":
+            nf = res["grids"][str(case["sd"])][2]
+            for o, d in ((outs[0], nd), (outs[1], 1)):
+                exp = np.zeros((len(res["bnd"]) * d, nf * d))
+                for k, f in enumerate(res["bnd"]):
+                    for j in range(d):
+                        exp[k * d + j, f * d + j] = 1
+                if not np.array_equal(_dense(o), exp):
+                    return "BoundaryGrid.projection is not the selection of the boundary faces"
+            return None
+        if kind in ("trace", "div"):
+            sds = case["sds"]
+            if not self._in_scope(sds):
+                return None
+            o = outs[0]
+            if kind == "trace" and nd != 1:
+                return None   # documented NotImplementedError (or the empty list)
+            if kind == "div" and not sds:
+                return None   # np.concatenate of nothing: ValueError (not a projection)
+            if "err" in o:
+                return f"{kind} raised {o['err']}"
+            nc = {i: res["grids"][str(i)][1] * nd for i in sds}
+            nf = {i: res["grids"][str(i)][2] * nd for i in sds}
+            rnum, cnum = (nf, nc) if kind == "trace" else (nc, nf)
+            exp = np.zeros((sum(rnum.values()), sum(cnum.values())))
+            ro = co = 0
+            for k, i in enumerate(sds):
+                exp[ro:ro + rnum[i], co:co + cnum[i]] = _dense(res["locs"][k])
+                ro += rnum[i]
+                co += cnum[i]
+            got = _dense(o)
+            if got.shape != exp.shape or not np.array_equal(got, exp):
+                return f"{kind}: per-grid operators are not placed at the projections' offsets"
+            return None
         if kind == "sub":
             all_, req = case["all"], case["req"]
             if not self._in_scope(all_):
@@ -512,6 +739,29 @@ class C27(Prop):
             calls = _cl(COQ_KIND[k] for k in case["calls"])
             return (f"all_res_eqb (mp_run (mp_init {sds} {ifs} (Z.to_nat {nd}) {loc}) {calls}) "
                     f"{outs}")
+        if kind == "bgproj":
+            nf = G[str(case["sd"])][2]
+            bnd = "(map Z.to_nat [%s])" % ";".join(str(x) for x in res["bnd"])
+            return (f"mat_eqb (kron_eye (bg_projections {bnd} (Z.to_nat {nf})) (Z.to_nat {nd})) "
+                    f"{_cm(res['outs'][0])} && "
+                    f"mat_eqb (kron_eye (bg_projections {bnd} (Z.to_nat {nf})) 1) {_cm(res['outs'][1])}")
+        if kind == "hist":
+            all_ = _cl(_cgrid(i, G[str(i)]) for i in case["all"])
+            ops = _cl("%s %s %s %s" % ("SpRestr" if name.endswith("restriction") else "SpProl",
+                                       "Cells" if name.startswith("cell") else "Faces",
+                                       "true" if is_list else "false",
+                                       _cl(_cgrid(i, G[str(i)]) for i in req))
+                      for name, is_list, req in case["ops"])
+            return f"all_res_eqb (sp_history {all_} (Z.to_nat {nd}) {ops}) {outs}"
+        if kind in ("trace", "div"):
+            o = res["outs"][0]
+            xo = ("XNotImpl" if o.get("err") == "NotImpl" else
+                  "(XErr %s)" % o["err"] if "err" in o else "(XOk %s)" % _cm(o))
+            locs = _cl(_cm(m) for m in res["locs"])
+            if kind == "trace":
+                sds = _cl(_cgrid(i, G[str(i)]) for i in case["sds"])
+                return f"xres_eqb (trace_op {sds} (Z.to_nat {nd}) {locs}) {xo}"
+            return f"xres_eqb (of_res (divergence_op {locs})) {xo}"
         if kind == "bnd":
             def b(i):
                 l = res["bnd"][str(i)]
@@ -538,7 +788,7 @@ class C27(Prop):
         return None
 
     def nontrivial(self, case, res):
-        n = len(case.get("req", case.get("sds", case.get("ifs", []))))
+        n = len(case.get("req", case.get("sds", case.get("ifs", case.get("ops", [])))))
         return (n >= 2 or case["nd"] > 1) and not any("err" in o for o in res["outs"])
 
     def finding_key(self, case, res, why):
@@ -546,7 +796,7 @@ class C27(Prop):
 
     def shrink(self, case, still_fails):
         cur = dict(case)
-        for fld in ("req", "all", "sds", "ifs", "calls"):
+        for fld in ("ops", "req", "all", "sds", "ifs", "calls"):
             if fld not in cur:
                 continue
             changed = True
@@ -555,8 +805,11 @@ class C27(Prop):
                 for i in range(len(cur[fld])):
                     c = dict(cur)
                     c[fld] = cur[fld][:i] + cur[fld][i + 1:]
-                    if fld == "all":
+                    if fld == "all" and "req" in c:
                         c["req"] = [x for x in c["req"] if x in c["all"]]
+                    if fld == "all" and "ops" in c:
+                        c["ops"] = [[o[0], o[1], [x for x in o[2] if x in c["all"]]]
+                                    for o in c["ops"]]
                     if still_fails(c):
                         cur = c
                         changed = True
